@@ -278,6 +278,7 @@ def run(ch: Checker) -> None:
     from .common import shared_config_mutation_check
     shared_config_mutation_check(ch, 'C05.15')
     ch.rule('C05.16', 'a lock taken with a bare acquire() is released on every way out of the function, exceptional ones included (expected: no bare acquire at all, locks are held through `with`)', 1)
+    ch.rule('C05.18', 'sockets served by the shared loop stay non-blocking (or keep a finite timeout): setblocking(True) / settimeout(None) appear only in TcpClientConnection.wrap and TcpServerConnection.wrap, around the TLS handshake (frozen table)', 2)
     ch.rule('C05.17', 'queued output is shared between connections (module-level canned replies): no connection class releases a queued memoryview (expected 0 sites)', 1)
     from .common import lock_release_check, no_buffer_release_check
     lock_release_check(ch, 'C05.16')
@@ -297,6 +298,30 @@ def run(ch: Checker) -> None:
 
     # ---- C05.7 wire integers as slice bounds
     _wire_ints(ch, prog)
+
+    # ---------------- C05.18 who may put a socket of the worker into blocking mode
+    allowed18 = {'TcpClientConnection.wrap', 'TcpServerConnection.wrap'}
+    n18 = 0
+    seen18 = set()
+    for fn18 in prog.all_functions('proxy', include_inlined=True):
+        if fn18.module.name.startswith(('proxy.plugin', 'proxy.testing', 'proxy.http.client', 'proxy.http.websocket.client', 'proxy.common.pki', 'proxy.dashboard')):
+            continue
+        for c in walk_no_nested(fn18.node):
+            if isinstance(c, ast.Call) and isinstance(c.func, ast.Attribute) and c.func.attr in ('setblocking', 'settimeout') and len(c.args) == 1 and not c.keywords:
+                a = c.args[0]
+                blocking = isinstance(a, ast.Constant) and ((c.func.attr == 'setblocking' and a.value is True) or (c.func.attr == 'settimeout' and a.value is None))
+                unknown = not isinstance(a, ast.Constant) and c.func.attr == 'setblocking'
+                if not (blocking or unknown):
+                    continue
+                n18 += 1
+                seen18.add(fn18.qualname)
+                ch.check(fn18.qualname in allowed18, 'C05.18', fn18, c, 'blocking mode for the duration of a TLS handshake (the frozen table)',
+                         '%s puts a socket into blocking mode (%s): every send()/recv() on it then waits for the peer instead of returning what is possible -- a peer that stops reading (tiny window, '
+                         'never drains) makes one flush() of the shared loop wait forever, and with it every other connection of the worker. Only the two TLS wrap() methods may do this, around the handshake'
+                         % (fn18.qualname, norm(c)[:60]))
+    if n18 < 2:
+        raise AnalysisError('anchor vanished: the TLS wrap() methods no longer switch to blocking mode around the handshake')
+
 
 
 def _known_id(p: Any, sym: Sym, idx: int, arg: ast.AST) -> Tuple[bool, str, List[str]]:
